@@ -302,6 +302,10 @@ DISTURB = [
     "KEEP assert snapshot({'k': f\"{'a'}\"})['k'] >= 'b'",
     "KEEP assert [1, 5] == snapshot([Is(1), Is(2)])",
     "KEEP s_ = snapshot([f\"{'a'}\", Is(0+1)])",
+    # comparisons that must simply work (no exception is swallowed for these): the same call evaluated twice
+    "EXPECT for i_ in (1, 1):\n        assert snapshot({'a': Is(i_)})['a'] == i_",
+    "EXPECT for i_ in (1, 1):\n        assert [i_, 2] == snapshot([Is(i_), 2])",
+    "EXPECT for i_ in (1, 1):\n        assert i_ in snapshot([Is(1), 2])",
     # displays with star-expressions, never compared: nothing in them corresponds to a single value
     "KEEP s_ = snapshot([0+1, *XS_])",
     "KEEP s_ = snapshot({'a': 0+1, **DS_})",
@@ -390,6 +394,8 @@ def render(case):
             vals, rest = d[5:].split(") ", 1)
             lines.append(DISTURB_DEF.replace("    try:\n        %s\n    except Exception:\n        pass\n",
                                              "    for v_ in %s):\n        try:\n            v_ %s\n        except Exception:\n            pass\n" % (vals, rest)))
+        elif d.startswith("EXPECT "):
+            lines.append(DISTURB_DEF.replace("    try:\n        %s\n    except Exception:\n        pass\n", "    " + d[7:] + "\n"))
         else:
             lines.append(DISTURB_DEF % (d[5:] if d.startswith("KEEP ") else d))
     return "\n".join(lines) + "\n", events, boundaries
@@ -611,6 +617,14 @@ def oracle(case, obs):
     if case.get("disturb") and obs.get("plain"):
         pl = obs["plain"]
         what = DISTURB[case["disturb"]["kind"]]
+        if what.startswith("EXPECT "):
+            t_ = case["disturb"]["test"]
+            raised = obs["tests"][t_]["raised"] if t_ < len(obs["tests"]) else None
+            if raised and raised != "AssertionError":
+                d_ = f"`{what[7:]}` (the same call evaluated twice with an equal value) raised {raised}"
+                fails.append(("C14", "unchanged_argument_accumulates", d_))
+                fails.append(("C10", "unmanaged_untouched", d_))
+                fails.append(("C06", "transparent", d_))
         if what.startswith("KEEP ") and not (obs["collect_errors"] or obs["apply_error"] or obs["import_error"]) and what[5:] not in (obs.get("after") or ""):
             fails.append(("C10", "unmanaged_untouched", f"approved {sorted(approved)}: the user-controlled argument in `{what[5:]}` was altered: "
                           + repr([l for l in (obs.get("after") or "").splitlines() if "snapshot" in l][-1:])))
